@@ -116,6 +116,55 @@ pub fn eval_points(covers: &[Cover], pts: &[(f64, f64)]) -> Vec<f64> {
     xs
 }
 
+/// Train parameters as users get them: derived by the crate from a train make-up (`TrainConfig::make_train_params`),
+/// with two or three car types of which some may be listed with zero cars, in any position of the list. The train's
+/// own maximum speed is that of its slowest car type *present*; what the crate derives may never exceed it (a
+/// higher value would be enforced as the limit wherever nothing slower is posted). The returned parameters carry the
+/// independently derived maximum, so the profile comparison that follows is made against the true value as well.
+pub fn train_params_from_config(ctx: &mut Ctx, rng: &mut Rng, types: &[TrainType]) -> TrainParams {
+    use crate::gen::train::rail_vehicle;
+    let ntypes = rng.usize(2, 3);
+    let mut rvs: Vec<altrios_core::train::RailVehicle> = vec![];
+    while rvs.len() < ntypes {
+        let mut rv = rail_vehicle(rng);
+        rv.speed_max = uc::MPS * *rng.pick(&[11.0, 13.4, 17.9, 22.35, 25.0, 31.3, 40.0]);
+        if !rvs.iter().any(|r| r.car_type == rv.car_type) {
+            rvs.push(rv);
+        }
+    }
+    let mut n_by: std::collections::HashMap<String, u32> = std::collections::HashMap::new();
+    let zero_at = if rng.chance(0.6) { Some(rng.usize(0, ntypes - 1)) } else { None };
+    for (k, rv) in rvs.iter().enumerate() {
+        n_by.insert(rv.car_type.clone(), if zero_at == Some(k) { 0 } else { rng.usize(1, 60) as u32 });
+    }
+    let present: Vec<&altrios_core::train::RailVehicle> = rvs.iter().filter(|r| n_by[&r.car_type] > 0).collect();
+    let own_max = present.iter().map(|r| r.speed_max.value).fold(f64::INFINITY, f64::min);
+    let own_len: f64 = present.iter().map(|r| r.length.value * n_by[&r.car_type] as f64).sum();
+    let own_axles: u32 = present.iter().map(|r| r.axle_count as u32 * n_by[&r.car_type]).sum();
+    let cfg = match altrios_core::train::TrainConfig::new(rvs.clone(), n_by.clone(), *rng.pick(types), None, None, None) {
+        Ok(c) => c,
+        Err(_) => return train_params(rng, types),
+    };
+    ctx.count("obs.train_params_from_make_up");
+    if zero_at.is_some() {
+        ctx.count("obs.train_params_from_make_up_with_an_absent_car_type");
+    }
+    match cfg.make_train_params() {
+        Ok(mut tp) => {
+            let desc = json!({"car_types": rvs.iter().map(|r| json!({"type": r.car_type, "cars": n_by[&r.car_type], "speed_max": r.speed_max.value})).collect::<Vec<_>>()});
+            if !(tp.speed_max.value <= own_max) {
+                ctx.violate("train_own_max_speed", "C02:train_max_speed_above_slowest_car_present", format!("make_train_params gives the train a maximum speed of {} m/s, its slowest car type present allows {own_max} m/s", tp.speed_max.value), desc.clone());
+            }
+            if ctx.prop == "C13" && (tp.speed_max.value != own_max || !close(tp.length.value, own_len, 1e-12, 0.0) || tp.axle_count != own_axles) {
+                ctx.violate("train_params_from_make_up", "C13:train_params_differ_from_make_up", format!("make_train_params gives (speed_max {}, length {}, axles {}), the make-up gives ({own_max}, {own_len}, {own_axles})", tp.speed_max.value, tp.length.value, tp.axle_count), desc);
+            }
+            tp.speed_max = uc::MPS * own_max;
+            tp
+        }
+        Err(_) => train_params(rng, types),
+    }
+}
+
 pub fn train_params(rng: &mut Rng, types: &[TrainType]) -> TrainParams {
     let cars = rng.usize(5, 150);
     let length = if rng.chance(0.6) { (cars as f64 * 18.5 * 2.0).round() / 2.0 } else { rng.range(50.0, 3000.0) };
@@ -310,7 +359,7 @@ pub fn run_speed(ctx: &mut Ctx, rng: &mut Rng, thorough: bool) {
     ctx.rep.evaluations -= 1; // evaluations are counted per (route, train) pair
     for _ in 0..4 {
         ctx.rep.evaluations += 1;
-        let tp = train_params(rng, &net.train_types);
+        let tp = if rng.chance(0.3) { train_params_from_config(ctx, rng, &net.train_types) } else { train_params(rng, &net.train_types) };
         let reverse = rng.chance(0.3);
         let full = rng.chance(0.5);
         let route = net.route(rng, reverse, full);
@@ -539,6 +588,68 @@ pub fn check_geometry(ctx: &mut Ctx, net: &GenNet, route: &[LinkIdx], tp: &Train
             if !close(a.offset_start.value, b.0, 1e-12, 0.0) || !close(a.offset_end.value, b.1, 1e-12, 0.0) || a.power_limit.value != b.2 {
                 viol(ctx, "catenary_shift", format!("catenary section [{}, {}] vs route [{}, {}]", a.offset_start.value, a.offset_end.value, b.0, b.1), json!({}));
                 break;
+            }
+        }
+    }
+    // the crate's own hinted lookup (what the resistance model calls at every step) must land on the piece that
+    // holds the position, on finished and on unfinished paths alike: a forward sweep, a backward sweep and
+    // cold searches from the first index, compared with the stateless evaluation above
+    {
+        use altrios_core::lin_search_hint::{Dir, LinSearchHint};
+        for (name, v) in [("grades", grades), ("curves", p.curves())] {
+            let last = v.iter().rev().find(|q| q.offset.value.is_finite()).map(|q| q.offset.value).unwrap_or(0.0).min(total.max(v[0].offset.value));
+            let mut xs: Vec<f64> = v.iter().map(|q| q.offset.value).filter(|x| x.is_finite() && *x <= last).collect();
+            let mids: Vec<f64> = xs.windows(2).map(|w| 0.5 * (w[0] + w[1])).collect();
+            xs.extend(mids);
+            xs.sort_by(|a, b| a.partial_cmp(b).unwrap());
+            let mut bad: Option<String> = None;
+            let mut idx = 0usize;
+            for x in &xs {
+                ctx.count("obs.hinted_lookups");
+                match panics::guard(AssertUnwindSafe(|| v.calc_idx(uc::M * *x, idx, &Dir::Fwd))) {
+                    Ok(Ok(i)) => {
+                        idx = i;
+                        let (got, want) = (v[i].calc_res_val(uc::M * *x).value, path_val(v, *x));
+                        if !close(got, want, 1e-12, want.abs().max(1.0)) {
+                            bad = Some(format!("forward sweep at x={x}: piece {i} gives {got}, the piece holding x gives {want}"));
+                            break;
+                        }
+                    }
+                    Ok(Err(e)) => {
+                        bad = Some(format!("forward sweep at x={x} inside the path is rejected: {e:#}"));
+                        break;
+                    }
+                    Err(pn) => {
+                        bad = Some(format!("forward sweep at x={x} panics: {}", pn.message));
+                        break;
+                    }
+                }
+            }
+            if bad.is_none() {
+                for x in xs.iter().rev() {
+                    ctx.count("obs.hinted_lookups");
+                    match panics::guard(AssertUnwindSafe(|| v.calc_idx(uc::M * *x, idx, &Dir::Bwd))) {
+                        Ok(Ok(i)) => {
+                            idx = i;
+                            let (got, want) = (v[i].calc_res_val(uc::M * *x).value, path_val(v, *x));
+                            if !close(got, want, 1e-12, want.abs().max(1.0)) {
+                                bad = Some(format!("backward sweep at x={x}: piece {i} gives {got}, the piece holding x gives {want}"));
+                                break;
+                            }
+                        }
+                        Ok(Err(e)) => {
+                            bad = Some(format!("backward sweep at x={x} inside the path is rejected: {e:#}"));
+                            break;
+                        }
+                        Err(pn) => {
+                            bad = Some(format!("backward sweep at x={x} panics: {}", pn.message));
+                            break;
+                        }
+                    }
+                }
+            }
+            if let Some(m) = bad {
+                viol(ctx, "hinted_lookup", format!("{name} (path {}): {m}", if p.is_finished() { "finished" } else { "unfinished" }), json!({}));
             }
         }
     }
